@@ -66,7 +66,7 @@ PROPS = {
                         "of the model; validated by the segment correspondence)"],
     },
     'C02': {
-        'layers': ['l1'],
+        'layers': ['l1', 'l2'],
         'modelled_not_verified': ["as C01"],
         'assumptions': ["the reference lexer in Lean (SqlairModel/Lexer.lean) is the specification of literal/comment regions"],
     },
@@ -81,7 +81,7 @@ PROPS = {
     'C09': {'layers': ['l5', 'l4'], 'modelled_not_verified': ["per-connection re-prepare of an sql.Stmt is database/sql's (exact logs use one pooled connection; several connections are checked by invariants)"], 'assumptions': []},
     'C10': {'layers': ['l5'], 'modelled_not_verified': ["which objects the Go runtime considers reachable (liveness of the Query closure's captured Statement/DB, Iterator->driverStmt edge) and finalizer scheduling are the enabling conditions of the finalizer steps: an assumption, sampled by forced-GC histories"], 'assumptions': []},
     'C11': {'layers': ['l5'], 'modelled_not_verified': ["as C10", "database/sql defers the driver-level close until dependent rows are closed"], 'assumptions': []},
-    'C12': {'layers': ['l4', 'sqlite'], 'modelled_not_verified': ["sql.Tx (done flag, connection pinning, Tx.Stmt, closing open rows at the end) is an environment model validated by the L4 correspondence"], 'assumptions': ["Commit makes all take effect together / Rollback none is the engine's transaction semantics given the bracket; observed with real SQLite, not proved"]},
+    'C12': {'layers': ['l4', 'l5', 'sqlite'], 'modelled_not_verified': ["sql.Tx (done flag, connection pinning, Tx.Stmt, closing open rows at the end) is an environment model validated by the L4 correspondence"], 'assumptions': ["Commit makes all take effect together / Rollback none is the engine's transaction semantics given the bracket; observed with real SQLite, not proved"]},
     'C13': {'layers': ['l4'], 'modelled_not_verified': ["database/sql pool (InUse), Rows auto-close on EOF/error, driver ErrBadConn retry (not modelled, not generated)"], 'assumptions': []},
     'C14': {'layers': ['l4'], 'modelled_not_verified': ["sql.Rows (lasterr, Close, Err, Scan ordering) is an environment model validated by the L4 correspondence"], 'assumptions': []},
     'C15': {'layers': ['l4'], 'modelled_not_verified': ["rows are abstract ids with a converts/does-not-convert flag; the scan itself is C06's"], 'assumptions': []},
